@@ -181,14 +181,21 @@ class State(object):
             self.context.log_action(qv, number)
         return self
 
-    def log_error(self, message):
+    def log_error(self, message, position=None, query=None):
         """Log an error message"""
         if self.context is None:
-            self.metadata["log"].append(dict(kind="error", message=message))
+            self.metadata["log"].append(
+                dict(
+                    kind="error",
+                    message=message,
+                    position=None if position is None else position.to_dict(),
+                    query=query,
+                )
+            )
             self.is_error = True
             self.metadata["message"] = message
         else:
-            self.context.error(message)
+            self.context.error(message, position=position, query=query)
         return self
 
     def log_warning(self, message):
@@ -200,16 +207,22 @@ class State(object):
             self.context.warning(message)
         return self
 
-    def log_exception(self, message, traceback):
+    def log_exception(self, message, traceback, position=None, query=None):
         """Log an exception"""
         if self.context is None:
             self.metadata["log"].append(
-                dict(kind="error", message=message, traceback=traceback)
+                dict(
+                    kind="error",
+                    message=message,
+                    traceback=traceback,
+                    position=None if position is None else position.to_dict(),
+                    query=query,
+                )
             )
             self.is_error = True
             self.metadata["message"] = message
         else:
-            self.context.exception(message, traceback)
+            self.context.exception(message, traceback, position=position, query=query)
         return self
 
     def log_info(self, message):
